@@ -76,15 +76,16 @@ Theorem C15_tree_level_pages : forall (old_root new_root : el) rules cap (new_si
                (token_opcodes rules (prepare old_root cap) (prepare new_root cap))) [] = Some [].
 Proof. exact admissible_pages_nest. Qed.
 
-(* the hypothesis is met by ordinary pages (paragraph with inline formatting, a list with a link,
-   a line break, an iframe, a script) ... *)
+(* the hypothesis is met by ordinary pages as the tokeniser sees them (html > head, body; paragraph with
+   inline formatting, a list with a link, a line break, an iframe, a script); head and body tags are
+   read the way a parser reads them inside a body: ignored, and only allowed while nothing is open *)
 Definition C15_sample_page : el :=
   let leaf (tag text tail : string) := El (s2l tag) [] (s2l text) [] (s2l tail) [] in
-  El (s2l "div"%string) [] [] [
+  El (s2l "html"%string) [] [] [leaf "head"%string ""%string ""%string; El (s2l "body"%string) [(s2l "class"%string, s2l "home"%string)] [] [
     El (s2l "p"%string) [(s2l "class", s2l "lead")] (s2l "one "%string) [leaf "b"%string "two"%string " three"%string; leaf "br"%string ""%string "four"%string] [] [];
     El (s2l "ul"%string) [] [] [El (s2l "li"%string) [] [] [El (s2l "a"%string) [(s2l "href", s2l "/x")] (s2l "link"%string) [] [] []] [] []] [] [];
     leaf "iframe"%string ""%string " after"%string;
-    El (s2l "script"%string) [] [] [] [] (s2l "<script>if (a<b) x()</script>"%string)] [] [].
+    El (s2l "script"%string) [] [] [] [] (s2l "<script>if (a<b) x()</script>"%string)] [] []] [] [].
 
 Example C15_sample_page_admissible : page_ok C15_sample_page = true.
 Proof. vm_compute. reflexivity. Qed.
